@@ -612,6 +612,15 @@ def merge_out(ret, sinks):
                                                for x in sinks]}
 
 
+def flag(e, case, which):
+    """a truthful uniqueness flag as callers have it: the Python bool, or (every third case) the numpy bool a computed flag is
+    (`np.all(k[1:] != k[:-1])`) — the same truth value must select the same kernel"""
+    v = case[which]
+    if isinstance(v, bool) and case.get("_n", 0) % 3 == 1:
+        return e["np"].bool_(v)
+    return v
+
+
 def impl_om(e, case):
     np, fields, s = e["np"], e["fields"], e["s"]
     kd = case.get("kdtype", "int64")
@@ -624,9 +633,9 @@ def impl_om(e, case):
     fn = s.ordered_merge_left if case["op"] == "oml" else s.ordered_merge_right
     with chunksize(case["cs"]):
         if case["op"] == "oml":
-            ret = s.ordered_merge_left(left, right, srcs, sinks, mp, left_unique=case["lu"], right_unique=case["ru"])
+            ret = s.ordered_merge_left(left, right, srcs, sinks, mp, left_unique=flag(e, case, "lu"), right_unique=flag(e, case, "ru"))
         else:
-            ret = s.ordered_merge_right(left, right, srcs, sinks, mp, left_unique=case["lu"], right_unique=case["ru"])
+            ret = s.ordered_merge_right(left, right, srcs, sinks, mp, left_unique=flag(e, case, "lu"), right_unique=flag(e, case, "ru"))
     out = merge_out(ret, sinks)
     streamed = kf and sf and case["sinks"] == "fields" and case["map_given"]
     out["map"] = ints(mp.data[:]) if streamed else None
@@ -643,7 +652,7 @@ def impl_omi(e, case):
     rsrc = tuple(payload_field(e, p) if (fieldy or p["kind"] == "idx") else payload_array(e, p) for p in case["rpayloads"])
     lsnk = mk_sinks(e, case["lsinks"], case["lpayloads"], case.get("lsink_init", []))
     rsnk = mk_sinks(e, case["rsinks"], case["rpayloads"], case.get("rsink_init", []))
-    ret = s.ordered_merge_inner(left, right, lsrc, lsnk, rsrc, rsnk, left_unique=case["lu"], right_unique=case["ru"])
+    ret = s.ordered_merge_inner(left, right, lsrc, lsnk, rsrc, rsnk, left_unique=flag(e, case, "lu"), right_unique=flag(e, case, "ru"))
     if lsnk is None and rsnk is None:
         lret, rret = ret
     else:
